@@ -28,6 +28,7 @@ pub fn exec(func: &str, a: &mut Args) -> Option<String> {
         "bsphere_loosened" => { let s = sph(a); let m = a.f(); fsph(&s.loosened(m)) }
         "bsphere_tightened" => { let s = sph(a); let m = a.f(); fsph(&s.tightened(m)) }
         "aabb_tightened" => { let x = aabb(a); let m = a.f(); faabb(&x.tightened(m)) }
+        "aabb_take_point" => { let mut x = aabb(a); let p = d3::p(a); x.take_point(p); faabb(&x) }
         // composite, then k times `.scaled(s_i)`, then the box through `dyn Shape`
         "co3_hist_aabb" => {
             let c = c09b::co(a); let k = a.u(); let ss: Vec<d3::Vector<Real>> = (0..k).map(|_| d3::v(a)).collect();
@@ -82,6 +83,11 @@ pub fn gen(r: &mut Rng, thorough: bool, v: &mut Vec<(String, String)>) {
         let hmin = x.half_extents().min();
         let t = match r.below(5) { 0 => 0.0, 1 => hmin, 2 => hmin * 0.5, 3 => hmin * 1.5, _ => am };
         v.push(("aabb_tightened".into(), format!("{} {}", haabb(&x), hx(t))));
+        // take_point: inside / on a face / beyond one, two or three faces / into the invalid sentinel box
+        let tp = if r.below(3) == 0 { d3::gen_p(r, lat, 60.0) } else {
+            x.mins + (x.maxs - x.mins).component_mul(&d3::Vector::new(*r.pick(&[0.0, 0.5, 1.0, 1.25, -0.25]), *r.pick(&[0.0, 0.5, 1.0, 2.0]), *r.pick(&[0.5, 1.0, -1.0]))) };
+        let bx = if r.below(8) == 0 { Aabb::new_invalid() } else { x };
+        v.push(("aabb_take_point".into(), format!("{} {}", haabb(&bx), d3::hp(&tp))));
         // histories: 1..4 scalings, signs flip back and forth (a flip followed by its undo, the same flip twice, a zero-free mix)
         if it % 2 == 0 {
             let c = match (it / 2) % 3 { 0 => c09b::gen_trimesh(r, lat), 1 => c09b::gen_polyline(r, lat), _ => { let neg = r.below(3) == 0; c09b::gen_heightfield(r, lat, neg) } };
